@@ -58,7 +58,7 @@ func runRX(c *ctx, kind string, side byte, want string, fs []sframe, cut, spec, 
 		out = res.class
 	} else if err == nil {
 		out = fmt.Sprintf("data:%d:%s", op, hx(p))
-	} else if out == "other" {
+	} else if out == "other" || out == "proto:other" {
 		out = "err:" + readErrClass(err)
 	}
 	c.emit("%s %d %s %s %s %s %s -> %s %s", kind, side, want, framesTok(fs), cut, spec, tail, hxList(rw.w.calls), out)
